@@ -198,3 +198,71 @@ def _roles_group_func_wrap(f: Func) -> Dict[str, str]:
 
 ROLE_INFERENCE[("groupby.numba", "_apply_group_method_single_chunk")] = _roles_single_chunk
 ROLE_INFERENCE[("groupby.numba", "_group_func_wrap")] = _roles_group_func_wrap
+
+
+# ---------------------------------------------------------------------------------- locals that name one array cell
+
+def inline_cell_reads(f: Func) -> Func:
+    """`t = A[i]` ... use of `t`  ->  use of `A[i]`, for a local with ONE definition whose right-hand side reads one cell of an
+    array through names only, when no store to `A` and no re-binding of the index names lies (textually) between the definition
+    and the use inside the same loop body.  Rules that recognise an expression by the cells it reads (`times[i] - clock[k]`)
+    then see the same expression whether or not the cells were first given a name."""
+    node = copy.deepcopy(f.node)
+    stores: Dict[str, int] = {}
+    for n in ast.walk(node):
+        if isinstance(n, ast.Name) and isinstance(n.ctx, ast.Store):
+            stores[n.id] = stores.get(n.id, 0) + 1
+    loop_targets = {n.id for l in ast.walk(node) if isinstance(l, (ast.For, ast.comprehension)) for n in ast.walk(l.target)
+                    if isinstance(n, ast.Name)}
+    array_stores: Dict[str, List[int]] = {}
+    for s in ast.walk(node):
+        tgts = s.targets if isinstance(s, ast.Assign) else [s.target] if isinstance(s, (ast.AugAssign, ast.AnnAssign)) else []
+        for t in tgts:
+            for e in (t.elts if isinstance(t, (ast.Tuple, ast.List)) else [t]):
+                b = e
+                while isinstance(b, ast.Subscript):
+                    b = b.value
+                if isinstance(e, ast.Subscript) and isinstance(b, ast.Name):
+                    array_stores.setdefault(b.id, []).append(s.lineno)
+    name_stores: Dict[str, List[int]] = {}
+    for n in ast.walk(node):
+        if isinstance(n, ast.Name) and isinstance(n.ctx, ast.Store):
+            name_stores.setdefault(n.id, []).append(n.lineno)
+    cand: Dict[str, Tuple[ast.Assign, ast.For]] = {}
+    for loop in ast.walk(node):
+        if not isinstance(loop, ast.For):
+            continue
+        for s in walk_stmts(loop.body):
+            if isinstance(s, ast.Assign) and len(s.targets) == 1 and isinstance(s.targets[0], ast.Name) \
+                    and stores.get(s.targets[0].id) == 1 and s.targets[0].id not in loop_targets \
+                    and isinstance(s.value, ast.Subscript) and isinstance(s.value.value, ast.Name) \
+                    and all(isinstance(x, (ast.Name, ast.Constant, ast.Tuple, ast.Load)) for x in ast.walk(s.value.slice)):
+                cand[s.targets[0].id] = (s, loop)
+    if not cand:
+        return f
+
+    class Sub(ast.NodeTransformer):
+        def visit_Name(self, n: ast.Name):
+            if isinstance(n.ctx, ast.Load) and n.id in cand:
+                d, loop = cand[n.id]
+                arr = d.value.value.id
+                idx_names = {x.id for x in ast.walk(d.value.slice) if isinstance(x, ast.Name)}
+                lo, hi = d.lineno, n.lineno
+                inside = loop.lineno <= n.lineno <= (loop.end_lineno or n.lineno)
+                clobber = any(lo < l < hi for l in array_stores.get(arr, [])) \
+                    or any(lo < l <= hi for nm in idx_names for l in name_stores.get(nm, []))
+                if inside and hi >= lo and not clobber:
+                    return ast.copy_location(copy.deepcopy(d.value), n)
+            return n
+
+    node = Sub().visit(node)
+    return Func(module=f.module, qualname=f.qualname, node=node, cls=f.cls, parent=f.parent, decorators=list(f.decorators))
+
+
+def walk_stmts(block):
+    for st in block:
+        yield st
+        for fld in ("body", "orelse", "finalbody"):
+            sub = getattr(st, fld, None)
+            if isinstance(sub, list) and sub and isinstance(sub[0], ast.stmt) and not isinstance(st, (ast.FunctionDef, ast.ClassDef)):
+                yield from walk_stmts(sub)
